@@ -214,5 +214,5 @@ def run(case, out):
 
 
 SUBS = {
-    "history": Sub(run, strategy, quick=40, thorough=600, quick_shards=8),
+    "history": Sub(run, strategy, quick=120, thorough=800, quick_shards=8),
 }
